@@ -86,6 +86,21 @@ Theorem C03_histogram_stepZeroData_refuted :
 Proof. vm_compute. split; reflexivity. Qed.
 Print Assumptions C03_histogram_stepZeroData_refuted.
 
+(* Objects without state (fixed restraints; histogramRestraint on the C06 model of its update): every carrier. *)
+Theorem C03_stateless_resumes :
+  (forall (C I Ou : Type) (f : C -> Z -> I -> Ou),
+     resumes_like_uninterrupted (stateless_machine f) (fun _ => True) eq eq eq) /\
+  (forall (T : Type) (O : NumOps T),
+     resumes_like_uninterrupted (histrestraint_machine O) (fun _ => True) eq eq eq).
+Proof.
+  assert (H : forall (C I Ou : Type) (f : C -> Z -> I -> Ou),
+             resumes_like_uninterrupted (stateless_machine f) (fun _ => True) eq eq eq).
+  { intros C I Ou f. apply resumes_uninterrupted_of_go_on; [reflexivity|].
+    exact (resumable_resumes _ _ _ _ _ _ _ (stateless_resumable f)). }
+  split; [exact H|]. intros T O. apply H.
+Qed.
+Print Assumptions C03_stateless_resumes.
+
 (* ABMD over the reals: energy, force, final reference value. *)
 Theorem C03_abmd_resumes :
   resumes_like_uninterrupted (abmd_machine Rops) (fun _ => True) eq eq a_saved_eq /\
